@@ -23,7 +23,7 @@ import sys
 
 import numpy as np
 
-from tjverif import recgen, repro
+from tjverif import recgen, repro, session
 
 
 def run(ctx):
@@ -107,6 +107,27 @@ def run(ctx):
         if i % 3 == 0:
             ctx.sample(dict(desc, digests=[e["digest"] for e in r1], rows=[e["n"] for e in r1], child_streams=len(keys)))
     mp.close()
+    # ---- one generator handed to several TheJoker objects in turn ("one seeded rng, loop over stars"): the objects draw from it,
+    # so the second object continues the stream - it does not restart it
+    if ctx.replay is None:
+        from thejoker import TheJoker
+        for q in range(ctx.n(3, 12)):
+            rq = ctx.rng(7000 + q)
+            pbq = session.make_problem(rq, N=int(rq.choice([60, 200])), profile="flat", n_offsets=0, poly_trend=1)
+            gq = np.random.default_rng(int(rq.integers(0, 2 ** 31)))
+            mem = bool(rq.random() < 0.5)
+            outs = []
+            for rep_ in range(2):
+                jq = TheJoker(pbq.prior, rng=gq, tempfile_path=ctx.tmpdir)
+                oq = jq.rejection_sample(pbq.data, pbq.lib, in_memory=mem, n_linear_samples=2)
+                outs.append(set(float(x) for x in np.asarray(oq["K"].value, dtype=float)))
+            ctx.evaluations += 1
+            ctx.distinct.add(repr(("shared-generator-two-samplers", mem)))
+            both = outs[0] & outs[1]
+            if both:
+                ctx.violation("linear-draws-repeated", "two TheJoker objects built one after the other from the same Generator object "
+                              "returned %d identical K draws: the second did not continue the generator's stream" % len(both),
+                              dict(in_memory=mem, case=q))
     # (b) fresh interpreter, different hash seed
     if scen and ctx.replay is None:
         spec = dict(scenarios=scen, tmpdir=ctx.tmpdir, global_seed=4242)
